@@ -79,6 +79,11 @@ pub struct LinkState {
     pub dropped: [bool; 2],
     /// number of calls, to show the endpoints really run
     pub calls: u64,
+    /// the endpoint of this side behaves like a WebSocket in the CLIENT role: after it has taken the peer's `Close`
+    /// (and answered it) its source does not end by itself but only once the peer tears the transport down (`Eof`),
+    /// as RFC 6455 7.1.1 asks of clients and tungstenite implements. The default (`false`) is the server role: the
+    /// source ends right behind the `Close`.
+    pub linger_after_close: [bool; 2],
 }
 
 #[derive(Clone, Debug)]
@@ -97,6 +102,7 @@ impl Link {
             wire: Vec::new(),
             dropped: [false; 2],
             calls: 0,
+            linger_after_close: [false; 2],
         })))
     }
 
@@ -324,7 +330,9 @@ impl WebSocket for MemWs {
                     l.dirs[rdir].consumed += 1;
                     wake = l.dirs[rdir].writer_waker.take();
                     if matches!(m, Message::Close) {
-                        l.dirs[rdir].src_ended = true;
+                        if !l.linger_after_close[side] {
+                            l.dirs[rdir].src_ended = true;
+                        }
                         // automatic Close reply
                         if !l.dirs[side].sink_closed && !l.dirs[side].cut {
                             l.wire.push(WireEv {
